@@ -188,6 +188,34 @@ m('C07', 'undecodable_line_skipped_silently', 'gemmill/consensus/pbft/replay.go'
 	}
 """)
 
+# ---- C19 transaction pool
+TS = 'chain/app/evm/tx_sort.go'
+TP = 'chain/app/evm/tx_pool.go'
+m('C19', 'ready_run_allows_gaps', TS, "for next := (*m.index)[0]; m.index.Len() > 0 && (*m.index)[0] == next; next++ {", "for next := (*m.index)[0]; m.index.Len() > 0 && (*m.index)[0] >= next; next++ {")
+m('C19', 'forward_drops_current_nonce', TS, "for m.index.Len() > 0 && (*m.index)[0] < threshold {", "for m.index.Len() > 0 && (*m.index)[0] <= threshold {")
+m('C19', 'add_overwrites_same_nonce', TS, "if _, exist := m.items[tx.Nonce()]; exist {", "if old, exist := m.items[tx.Nonce()]; exist && old == tx {")
+m('C19', 'ready_ignores_count', TS, """		if ready.Len() == count {
+			break
+		}""", """		if ready.Len() > count {
+			break
+		}""")
+m('C19', 'promote_skips_forward', TP, """		oldTxs := waiting.Forward(nonce)
+		for _, otx := range oldTxs {
+			delete(tp.all, otx.Hash())
+		}
+""", """""")
+m('C19', 'promote_from_next_nonce', TP, "txs := waiting.ReadyN(nonce, tp.pendingLimit-pendingTxCount)", "txs := waiting.ReadyN(nonce+1, tp.pendingLimit-pendingTxCount)")
+m('C19', 'stale_nonce_accepted', TP, """	if currentNonce > tx.Nonce() {
+		return fmt.Errorf("nonce(%d) different with getNonce(%d)", tx.Nonce(), currentNonce)
+	}
+""", """""")
+m('C19', 'waiting_limit_off', TP, "if waitingTxCount >= tp.waitingLimit {", "if waitingTxCount > tp.waitingLimit {")
+m('C19', 'ok_rename_local_in_forward', TS, """		nonce := heap.Pop(m.index).(uint64)
+		removed = append(removed, m.items[nonce])
+		delete(m.items, nonce)""", """		n := heap.Pop(m.index).(uint64)
+		removed = append(removed, m.items[n])
+		delete(m.items, n)""")
+
 
 def main():
     want = set(sys.argv[1:])
